@@ -11,7 +11,7 @@ void set_log(int v) { log_applies = v; }
 
 object connect(int port) {
   object ob;
-  if (policy["connect_error"]) error("connect fails\n");
+  if (policy["connect_error"]) { policy["connect_error"] = 0; vfail("connect", "master"); }
   if (policy["connect_refuse"]) return 0;
   ob = new("/user.c");
   return ob;
@@ -72,7 +72,7 @@ mixed error_handler(mapping m, int caught) {
   string tr = "";
   mixed *t;
   int i;
-  if (policy["eh_error"]) error("error_handler fails\n");
+  if (policy["eh_error"]) error("error_handler fails\n");   /* the handler itself fails: not a task error of its own */
   t = m["trace"];
   if (arrayp(t)) {
     for (i = 0; i < sizeof(t); i++) {
